@@ -10,4 +10,5 @@ CONSTANTS
   Heights = {0, 1, 2}
   MaxCRound = 3
   Cutoff = 4
+  InstCap = 2
 INVARIANT StaleNoChange
